@@ -37,6 +37,9 @@ type Contract struct {
 	Req     []*Clause
 	Ens     []*Clause
 	Loops   map[int][]*Clause
+	LoopSets map[int][]*Clause // ghost assignments at the loop head
+	LoopInst map[int][]*Clause // extra instances of forall constants for the assumed invariants
+	Fresh bool // slice results are freshly allocated (extern contracts of allocating library functions)
 	Assigns []ast.Expr
 	HasAssigns bool
 	Inline, Trusted, NoPanic, Pure, Havoc bool
@@ -406,15 +409,47 @@ func (cs *ContractSet) parseFile(pkgPath, file string) error {
 		case "loop":
 			// loop <n> invariant <expr>
 			fs := strings.SplitN(rest, " ", 3)
-			if len(fs) < 3 || fs[1] != "invariant" {
-				return fmt.Errorf("%s:%d: expected 'loop <n> invariant <expr>'", file, lineNo)
+			if len(fs) < 3 || (fs[1] != "invariant" && fs[1] != "sets" && fs[1] != "instance") {
+				return fmt.Errorf("%s:%d: expected 'loop <n> invariant <expr>' | 'loop <n> sets ghost.X = <expr>' | 'loop <n> instance <name> = <expr>'", file, lineNo)
 			}
 			n, err := strconv.Atoi(fs[0])
 			if err != nil {
 				return fmt.Errorf("%s:%d: bad loop ordinal", file, lineNo)
 			}
 			rest = fs[2]
-			cur.Loops[n] = append(cur.Loops[n], mk("invariant"))
+			switch fs[1] {
+			case "invariant":
+				cur.Loops[n] = append(cur.Loops[n], mk("invariant"))
+			case "sets":
+				// ghost code at the loop head (start of every iteration and at the exit test)
+				eq := strings.Index(rest, "=")
+				if !strings.HasPrefix(rest, "ghost.") || eq < 0 {
+					return fmt.Errorf("%s:%d: loop <n> sets ghost.<name> = <expr>", file, lineNo)
+				}
+				g := strings.TrimSpace(rest[len("ghost."):eq])
+				rest = strings.TrimSpace(rest[eq+1:])
+				cl := mk("sets")
+				cl.Label = g
+				if cur.LoopSets == nil {
+					cur.LoopSets = map[int][]*Clause{}
+				}
+				cur.LoopSets[n] = append(cur.LoopSets[n], cl)
+			case "instance":
+				// the loop's invariants (proved for arbitrary values of the contract's forall
+				// constants) are also assumed at the head with <name> := <expr>
+				eq := strings.Index(rest, "=")
+				if eq < 0 {
+					return fmt.Errorf("%s:%d: loop <n> instance <name> = <expr>", file, lineNo)
+				}
+				nm := strings.TrimSpace(rest[:eq])
+				rest = strings.TrimSpace(rest[eq+1:])
+				cl := mk("instance")
+				cl.Label = nm
+				if cur.LoopInst == nil {
+					cur.LoopInst = map[int][]*Clause{}
+				}
+				cur.LoopInst[n] = append(cur.LoopInst[n], cl)
+			}
 		case "assigns":
 			cur.HasAssigns = true
 			if rest != "nothing" {
@@ -432,6 +467,10 @@ func (cs *ContractSet) parseFile(pkgPath, file string) error {
 			cur.Trusted = true
 		case "nopanic":
 			cur.NoPanic = true
+		case "fresh":
+			cur.Fresh = true
+		case "debugnames":
+			// package-level switch, read by the loader
 		case "nosend":
 			// nosend [@Cxx,...]: no reachable blocking channel send
 			cur.NoSend = true
